@@ -43,17 +43,25 @@ fn parts_for(prop: &str, tier: Tier) -> Vec<Box<dyn explore::Harness>> {
     };
     match prop {
         "C01" => vec![c(CProp::C01)],
-        "C02" => vec![c(CProp::C02), s(SProp::C02), hc(chain_props::HProp::C02)],
+        "C02" => vec![
+            c(CProp::C02),
+            s(SProp::C02),
+            hc(chain_props::HProp::C02),
+            Box::new(burst::BurstHarness { prop: "C02", cfgs: burst::configs_many(burst::Side::ClientManyCalls, tier == Tier::Thorough) }),
+        ],
         "C03" => vec![c(CProp::C03)],
         "C04" => vec![s(SProp::C04), hc(chain_props::HProp::C04)],
         "C05" => vec![c(CProp::C05)],
-        "C06" => vec![s(SProp::C06)],
+        "C06" => vec![
+            s(SProp::C06),
+            Box::new(burst::BurstHarness { prop: "C06", cfgs: burst::configs_many(burst::Side::ServerManyExpire, tier == Tier::Thorough) }),
+        ],
         "C08" => vec![s(SProp::C08)],
         "C10" => vec![c(CProp::C10), s(SProp::C10)],
         "C11" => vec![
             c(CProp::C11),
             s(SProp::C11),
-            Box::new(burst::BurstHarness { cfgs: burst::configs(tier == Tier::Thorough) }),
+            Box::new(burst::BurstHarness { prop: "C11", cfgs: burst::configs(tier == Tier::Thorough) }),
         ],
         "C12" => vec![s(SProp::C12)],
         "C14" => vec![c(CProp::C14), s(SProp::C14)],
